@@ -313,8 +313,8 @@ def sample(case):
     return c
 
 
-THEOREM_FILES = ['P_C09', 'P_C09_gen', 'P_C09_ctors']
-THEOREM_NEEDS = {'P_C09_gen': ['Equiv_guards'], 'P_C09_ctors': ['Equiv_ctors']}
+THEOREM_FILES = ['P_C09', 'P_C09_gen', 'P_C09_ctors', 'P_C09_trev']
+THEOREM_NEEDS = {'P_C09_gen': ['Equiv_guards'], 'P_C09_ctors': ['Equiv_ctors'], 'P_C09_trev': ['Equiv_trev']}
 EXHAUSTIVE = False
 RULE = ('(a) exhaustive grid nele in [-1, 2norb+2], m_s in [-norb-2, norb+2], norb up to the tier bound, three '
         'constructors; (b) random Gaussian-integer bra/ket, all symmetry modes, N/Sz/S^2/T as expectation and '
